@@ -506,6 +506,10 @@ class ShuffleRepeatBatchView:
   def __iter__(self) -> Iterator[Examples]:
     buf = np.arange(self._data_size, dtype=np.int32)
     buf_size = buf.shape[0]
+    if buf_size == 0:
+      # Nothing to sample from: an empty dataset produces no batches (the refill
+      # loop below would otherwise never terminate when only num_steps is set).
+      return
     # Start of unused portion of buf. We start with no unused values because we
     # haven't shuffled yet.
     i = buf_size
